@@ -22,16 +22,20 @@ CONSTANTS N, GroupNames, Groups, CondSizes, SeqSizes, MaxOps,     \* Groups: [Gr
 \* Obj: [1..N -> object]: the OBJECT a target belongs to. Functions: every target is its own object. Interface mocks
 \* (instance ScaleI): target = (variable, method), object = the variable; builders own objects; a method of a mocked variable
 \* that is not itself mocked answers "method not implements" (exp -1).
-VARIABLES own, repl, lk, nid, cstub, qstub, qpos, hist
+VARIABLES own, ever, repl, lk, nid, cstub, qstub, qpos, hist
 \* lk[i]: kind of the instruction in force on target i (a bare Return on a handle that already holds a Return stub EXTENDS its
 \* sequence - Goom.tla / C05 - and is kept out of this spec: the action is not enabled)
-vars == <<own, repl, lk, nid, cstub, qstub, qpos, hist>>
+\* ever[o]: which kind of builder has EVER held object o. The properties speak of builders with disjoint targets (C11) and of what
+\* a Reset does to the resetting builder's own targets (C02); a target that passes from one builder to another is outside them
+\* (goom: the first builder's next Reset cancels its stale mocker again and removes the second builder's patch), so an object
+\* stays with the kind of builder that first mocked it.
+vars == <<own, ever, repl, lk, nid, cstub, qstub, qpos, hist>>
 T == 1..N
 Objs == {Obj[i] : i \in T}
 Of(S) == {Obj[i] : i \in S}
 None == [id |-> 0, n |-> 0]
 
-Init == /\ own = [o \in Objs |-> "none"] /\ repl = [i \in T |-> 0] /\ lk = [i \in T |-> "none"] /\ nid = 0
+Init == /\ own = [o \in Objs |-> "none"] /\ ever = [o \in Objs |-> "none"] /\ repl = [i \in T |-> 0] /\ lk = [i \in T |-> "none"] /\ nid = 0
         /\ cstub = None /\ qstub = None /\ qpos = 0 /\ hist = <<>>
 
 Ids(S) == TLCEval([i \in T |-> i \in S])            \* membership mask over 1..N (a sequence of booleans)
@@ -46,22 +50,22 @@ Rec(r, f) == hist' = Append(hist, r @@ [exp |-> ExpOf(f), cn |-> cstub'.n, cid |
 MockShared(g, kind) ==
     LET G == TLCEval(Groups[g]) OG == TLCEval(Of(G))
         nr == TLCEval([i \in G |-> nid + 1] @@ repl) IN                     \* (@@ is implemented natively: left operand wins)
-    /\ {i \in G : own[Obj[i]] = "fresh"} = {}                \* disjoint builders (C11)   (sets, not \A: TLC unfolds \A recursively)
+    /\ {i \in G : ever[Obj[i]] = "fresh"} = {}                \* disjoint builders (C11)   (sets, not \A: TLC unfolds \A recursively)
     /\ (kind = "return" => {i \in G : lk[i] = "return"} = {})
     /\ lk' = TLCEval([i \in G |-> kind] @@ lk)
     /\ nid' = nid + 1
-    /\ own' = TLCEval([o \in OG |-> "shared"] @@ own)
+    /\ own' = TLCEval([o \in OG |-> "shared"] @@ own) /\ ever' = TLCEval([o \in OG |-> "shared"] @@ ever)
     /\ repl' = nr
     /\ UNCHANGED <<cstub, qstub, qpos>>
     /\ Rec([op |-> "MockShared", g |-> g, is |-> Ids(G), kind |-> kind, id |-> nid + 1], nr)
 MockFresh(g, kind) ==
     LET G == TLCEval(Groups[g]) OG == TLCEval(Of(G))
         nr == TLCEval([i \in G |-> nid + 1] @@ repl) IN
-    /\ {i \in G : own[Obj[i]] = "shared"} = {}
+    /\ {i \in G : ever[Obj[i]] = "shared"} = {}
     /\ (kind = "return" => {i \in G : lk[i] = "return"} = {})
     /\ lk' = TLCEval([i \in G |-> kind] @@ lk)
     /\ nid' = nid + 1
-    /\ own' = TLCEval([o \in OG |-> "fresh"] @@ own)
+    /\ own' = TLCEval([o \in OG |-> "fresh"] @@ own) /\ ever' = TLCEval([o \in OG |-> "fresh"] @@ ever)
     /\ repl' = nr
     /\ UNCHANGED <<cstub, qstub, qpos>>
     /\ Rec([op |-> "MockFresh", g |-> g, is |-> Ids(G), kind |-> kind, id |-> nid + 1], nr)
@@ -72,7 +76,7 @@ CancelShared(g) ==
     /\ HasCancel /\ S # {}
     /\ repl' = nr
     /\ lk' = TLCEval([i \in S |-> "none"] @@ lk)
-    /\ UNCHANGED <<own, nid, cstub, qstub, qpos>>
+    /\ UNCHANGED <<own, ever, nid, cstub, qstub, qpos>>
     /\ Rec([op |-> "CancelShared", g |-> g, is |-> Ids(S)], nr)
 ResetShared ==
     LET nr == TLCEval([i \in T |-> IF own[Obj[i]] = "shared" THEN 0 ELSE repl[i]]) IN
@@ -80,7 +84,7 @@ ResetShared ==
     /\ repl' = nr
     /\ lk' = TLCEval([i \in T |-> IF own[Obj[i]] = "shared" THEN "none" ELSE lk[i]])
     /\ cstub' = None /\ qstub' = None /\ qpos' = 0
-    /\ UNCHANGED nid
+    /\ UNCHANGED <<nid, ever>>
     /\ Rec([op |-> "ResetShared"], nr)
 ResetFresh(g) ==
     LET O == TLCEval({o \in Of(Groups[g]) : own[o] = "fresh"})
@@ -90,34 +94,34 @@ ResetFresh(g) ==
     /\ own' = TLCEval([o \in O |-> "none"] @@ own)
     /\ repl' = nr
     /\ lk' = TLCEval([i \in S |-> "none"] @@ lk)
-    /\ UNCHANGED <<nid, cstub, qstub, qpos>>
+    /\ UNCHANGED <<nid, ever, cstub, qstub, qpos>>
     /\ Rec([op |-> "ResetFresh", g |-> g, is |-> Ids(S), os |-> OIds(O)], nr)
 
 \* conditional stub of n conditions on target C: argument a in 1..n selects v_a = id * 100000 + a, everything else the default id * 100000
 CondStub(n) ==
     /\ cstub = None
     /\ nid' = nid + 1 /\ cstub' = [id |-> nid + 1, n |-> n]
-    /\ UNCHANGED <<own, repl, lk, qstub, qpos>>
+    /\ UNCHANGED <<own, ever, repl, lk, qstub, qpos>>
     /\ Rec([op |-> "CondStub", n |-> n, id |-> nid + 1], repl)
 CVal(a) == IF cstub.id = 0 THEN 77000 + a ELSE IF a \in 1..cstub.n THEN cstub.id * 100000 + a ELSE cstub.id * 100000
 CallC == /\ CondSizes # {}
-         /\ UNCHANGED <<own, repl, lk, nid, cstub, qstub, qpos>>
+         /\ UNCHANGED <<own, ever, repl, lk, nid, cstub, qstub, qpos>>
          /\ Rec([op |-> "CallC", expc |-> [j \in 1..(cstub.n + 2) |-> CVal(j - 1)]], repl)         \* arguments 0..n+1
 
 \* sequenced stub of n results on target Q: the j-th call receives v_min(j, n) = id * 100000 + min(j, n)
 SeqStub(n) ==
     /\ qstub = None
     /\ nid' = nid + 1 /\ qstub' = [id |-> nid + 1, n |-> n] /\ qpos' = 0
-    /\ UNCHANGED <<own, repl, lk, cstub>>
+    /\ UNCHANGED <<own, ever, repl, lk, cstub>>
     /\ Rec([op |-> "SeqStub", n |-> n, id |-> nid + 1], repl)
 MinOf(a, b) == IF a < b THEN a ELSE b
 QVal(j) == IF qstub.id = 0 THEN 88000 + 7 ELSE qstub.id * 100000 + MinOf(j, qstub.n)
 CallQ(m) == /\ SeqSizes # {}
             /\ qpos' = qpos + m
-            /\ UNCHANGED <<own, repl, lk, nid, cstub, qstub>>
+            /\ UNCHANGED <<own, ever, repl, lk, nid, cstub, qstub>>
             /\ Rec([op |-> "CallQ", m |-> m, expq |-> [j \in 1..m |-> QVal(qpos + j)]], repl)
 
-Finish == Len(hist) = MaxOps /\ hist' = Append(hist, [op |-> "End"]) /\ UNCHANGED <<own, repl, lk, nid, cstub, qstub, qpos>>
+Finish == Len(hist) = MaxOps /\ hist' = Append(hist, [op |-> "End"]) /\ UNCHANGED <<own, ever, repl, lk, nid, cstub, qstub, qpos>>
 Step == \/ \E g \in GroupNames, k \in {"apply", "return"} : MockShared(g, k) \/ MockFresh(g, k)
         \/ \E g \in GroupNames : CancelShared(g) \/ ResetFresh(g)
         \/ ResetShared
@@ -131,6 +135,6 @@ Spec == Init /\ [][Next]_vars
 ResetExact == [][(Len(hist') > Len(hist) /\ hist'[Len(hist')].op = "ResetShared") =>
                    \A i \in T : (own[Obj[i]] = "shared" => repl'[i] = 0) /\ (own[Obj[i]] # "shared" => repl'[i] = repl[i])]_vars
 OwnedIffMocked == \A i \in T : own[Obj[i]] = "none" => repl[i] = 0
-View == <<own, repl, lk, cstub, qstub, qpos, Len(hist)>>
+View == <<own, ever, repl, lk, cstub, qstub, qpos, Len(hist)>>
 Emit == Len(hist) = MaxOps + 1 => PrintT(ToJson(SubSeq(hist, 1, MaxOps)))
 =============================================================================
